@@ -209,15 +209,22 @@ var c17Scopes = []c17scope{
 	{`local a = x; do local p = 1; do local q = 2 end end; do do local r = 3 end; local s = y; return debug.getlocal(1, n) end`, []string{"a", "s"}, []string{"x", "y"}},
 	{`local a = x; if a == a then local p = 1 else local q = 2 end; local b = y; return debug.getlocal(1, n)`, []string{"a", "b"}, []string{"x", "y"}},
 	{`local a = x; while true do local p = y; break end; repeat local q = 1 until true; local c = 7; return debug.getlocal(1, n)`, []string{"a", "c"}, []string{"x", "7"}},
+	// queried from a function called as the very last statement of a block, right after a declaration, and while
+	// an initialiser is still being evaluated (the new variable is not in scope yet)
+	{`local function probe() R1, R2 = debug.getlocal(2, n) end; local a = x; do local p = y; probe() end; return R1, R2`, []string{"probe", "a", "p"}, []string{"f", "x", "y"}},
+	{`local function probe() R1, R2 = debug.getlocal(2, n) end; local a = x; local b = y; probe(); return R1, R2`, []string{"probe", "a", "b"}, []string{"f", "x", "y"}},
+	{`local function probe() R1, R2 = debug.getlocal(2, n); return 1 end; local a = x; local b = probe(); return R1, R2`, []string{"probe", "a"}, []string{"f", "x"}},
+	{`local function probe() R1, R2 = debug.getlocal(2, n) end; local function f(p, q) probe() end; f(x, y); return R1, R2`, []string{"p", "q"}, []string{"x", "y"}},
+	{`local function probe() R1, R2 = debug.getlocal(2, n) end; local a = x; for i = 1, 1 do local q = y; probe() end; return R1, R2`, []string{"probe", "a", "(for index)", "(for limit)", "(for step)", "i", "q"}, []string{"f", "x", "1", "1", "1", "1", "y"}},
 }
 
-//verif:harness prop=C17 tier=quick bounds="8 scope layouts (sequential and nested blocks, shadowing, local functions, if/while/repeat bodies left behind), index n in 1..6, 2 symbolic float64 values"
+//verif:harness prop=C17 tier=quick bounds="13 scope layouts (sequential and nested blocks, shadowing, local functions, if/while/repeat bodies left behind, queries from a function called as the last statement of a block / right after a declaration / inside an initialiser / in a loop body), index n in 1..8, 2 symbolic float64 values"
 func H_C17_scopes() {
 	L := newL(Options{}, BaseLibName, DebugLibName)
 	x, y := VFloat("x"), VFloat("y")
 	L.G.Global.RawSetString("x", LNumber(x))
 	L.G.Global.RawSetString("y", LNumber(y))
-	n := 1 + VChoice(6)
+	n := 1 + VChoice(8)
 	L.G.Global.RawSetString("n", LNumber(n))
 	t := c17Scopes[VChoice(len(c17Scopes))]
 	err := loadRun(L, t.src, 2)
